@@ -223,6 +223,19 @@ CHECKS["C09"] = dict(
     note="Trusted: the reference interpreter, branch-directed execution as the meaning of 'control-flow path', CrossHair/z3.",
     design="4/C09")
 
+CHECKS["C05"] = dict(
+    level="translation_validation", engine="T",
+    technique="per generated program: real lian run (main.py semantic); CrossHair (z3) executes the reference GIR interpreter under "
+              "Python's scoping rules with symbolic inputs and compares, at every executed identifier occurrence, the declaration "
+              "owning the accessed storage cell with the declaration lian resolved the occurrence to",
+    text="For every program of the scoping family and ALL inputs (so occurrences behind any branch are reached), each executed "
+         "read or write of a name is bound by lian (s2space_p1/p3 symbol ids) to the declaration that the language's lexical "
+         "scoping selects (parameter, local, enclosing function, module, global/nonlocal). CONFIRMED = all paths of all programs "
+         "in the slice exhausted. The renaming clause and non-Python scoping are outside.",
+    note="Trusted: the reference interpreter's Python scoping (validated against CPython by C01 on closure/global programs), "
+         "CrossHair/z3. One open known finding (class attribute captures a global inside methods).",
+    design="4/C05")
+
 NOT_APPLICABLE = {
     "C12": "A relation between two whole-pipeline runs on syntactically edited programs: the quantified objects are "
            "program texts and edit sequences; no run-time input, id, flag or history for a solver to range over; "
